@@ -5,7 +5,7 @@
    definitions each example needs (Gen/ExamplesFragment.v) — the model lexes, parses,
    type-checks, compiles and runs the library definitions and the example, and every example
    yields a value.  A finite list, decided by vm_compute: a proof about the models.  The examples
-   outside the fragment (units, floats, structs, function values, dates, …: the majority) are
+   outside the fragment (units, inexact floats, structs, function values, dates, …: the majority) are
    executed on the implementation only (tools/props/c24.py). *)
 From Coq Require Import String List NArith Bool.
 From NV Require Import Pipeline.Glue Gen.ExamplesFragment.
@@ -24,3 +24,12 @@ Definition c24_ex_src : list N := map (fun c => N.of_nat (Ascii.nat_of_ascii c))
 Example C24_pipeline_nonvacuous :
   show_poutcome (interpret_model_strict [c24_ex_lib] c24_ex_src) = "ok:20".
 Proof. vm_compute. reflexivity. Qed.
+
+(* the fragment has exact decimals, interpolated strings and `->` calls; an inexact result (an
+   irrational root) is classified as outside the fragment, not as a value *)
+Definition c24_src (s : string) : list N := map (fun c => N.of_nat (Ascii.nat_of_ascii c)) (list_ascii_of_string s).
+Example C24_pipeline_decimals_and_interpolation :
+  show_poutcome (interpret_model_strict [c24_src "fn half(x: Scalar) -> String = ""{x / 2}!"""] (c24_src "5.5 -> half")) = "ok:""2.75!"""
+  /\ show_poutcome (interpret_model_strict [] (c24_src "2^(1/2)")) = "out-of-fragment"
+  /\ show_poutcome (interpret_model_strict [] (c24_src "(9/4)^(1/2)")) = "ok:1.5".
+Proof. vm_compute. repeat split; reflexivity. Qed.
